@@ -245,11 +245,31 @@ Proof. destruct r; cbn; [eauto|discriminate]. Qed.
 Lemma plane_rescale_inv P s P' : plane_rescale P s = Ok P' ->
   rescale_fld (p_amp P) s (fun v => v / s) = Ok (o_amp P') /\
   rescale_fld (p_opd P) s (fun v => v) = Ok (o_opd P') /\
-  rescale_msk (p_mask P) s = Ok (o_mask P') /\
+  rescale_msk0 (p_mask P) s = Ok (o_mask P') /\
   o_ps P' = rescale_ps (p_ps P) s.
 Proof. unfold plane_rescale. intros H.
   apply rbind_ok in H as (a & Ha & H). apply rbind_ok in H as (o & Ho & H). apply rbind_ok in H as (m & Hm & H).
-  injection H as <-. cbn. auto. Qed.
+  injection H as <-. cbn. repeat split; auto.
+  unfold rescale_msk in Hm. apply rbind_ok in Hm as (m0 & Hm0 & Hm). destruct (nonempty_msk m0); [|discriminate].
+  injection Hm as <-. exact Hm0. Qed.
+
+Lemma plane_rescale_nonempty P s P' : plane_rescale P s = Ok P' -> nonempty_msk (o_mask P') = true.
+Proof. unfold plane_rescale. intros H.
+  apply rbind_ok in H as (a & Ha & H). apply rbind_ok in H as (o & Ho & H). apply rbind_ok in H as (m & Hm & H).
+  injection H as <-. cbn. unfold rescale_msk in Hm. apply rbind_ok in Hm as (m0 & Hm0 & Hm).
+  destruct (nonempty_msk m0) eqn:E; [|discriminate]. injection Hm as <-. exact E. Qed.
+
+Lemma zrange_in n i : In i (zrange n) <-> (0 <= i < n)%Z.
+Proof. unfold zrange. rewrite in_map_iff. split.
+  - intros (k & <- & Hk). apply in_seq in Hk. lia.
+  - intros Hi. exists (Z.to_nat i). split; [lia|]. apply in_seq. lia. Qed.
+
+Lemma has_one_spec a : has_one a = true <->
+  exists i j, (0 <= i < onr a)%Z /\ (0 <= j < onc a)%Z /\ is_one (oget a i j) = true.
+Proof. unfold has_one. rewrite existsb_exists. split.
+  - intros (i & Hi & H). apply existsb_exists in H as (j & Hj & H). apply zrange_in in Hi, Hj. eauto.
+  - intros (i & j & Hi & Hj & H). exists i. split; [apply zrange_in; assumption|].
+    apply existsb_exists. exists j. split; [apply zrange_in; assumption|exact H]. Qed.
 
 Lemma rescale_fld_arr a s post f' : rescale_fld (FArr a) s post = Ok f' ->
   exists r, util_rescale Cubic a s = Ok r /\ f' = OArr (omap (smap post) r).
@@ -533,7 +553,7 @@ Proof. reflexivity. Qed.
 Theorem integer_dtype_refused P s a :
   p_amp P = FScalar 1 -> p_opd P = FScalar (Q2Qc 0) -> p_mask P = MMono a -> qint a = true ->
   plane_rescale P s = Err ValueError.
-Proof. intros Ea Eo Em Ei. unfold plane_rescale. rewrite Ea, Eo, Em. cbn. unfold util_rescale. rewrite Ei. reflexivity. Qed.
+Proof. intros Ea Eo Em Ei. unfold plane_rescale, rescale_msk. rewrite Ea, Eo, Em. cbn. unfold util_rescale. rewrite Ei. reflexivity. Qed.
 
 Lemma integer_mask_refuted :
   (forall (P : plane) (s : Qc) (a : qarr),
@@ -542,6 +562,39 @@ Lemma integer_mask_refuted :
   plane_rescale (mkPlane (FScalar 1) (FScalar (Q2Qc 0)) (MMono (mkQ 2 2 (fun _ _ => 1) true)) (Some (1, 1))) (zq 2)
     = Err ValueError.
 Proof. split; [exact integer_dtype_refused|reflexivity]. Qed.
+
+(* no segment vanishes silently: a successful call leaves at least one sample set in the mask / in every segment;
+   a mask or segment that would come out empty makes the call raise IndexError *)
+Theorem no_segment_vanishes P s :
+  (forall P', plane_rescale P s = Ok P' ->
+     (forall a', o_mask P' = OMono a' -> exists i j, (0 <= i < onr a')%Z /\ (0 <= j < onc a')%Z /\ oget a' i j = Known 1) /\
+     (forall l', o_mask P' = OCube l' -> Forall (fun a' =>
+        exists i j, (0 <= i < onr a')%Z /\ (0 <= j < onc a')%Z /\ oget a' i j = Known 1) l')) /\
+  (forall fa fo m0, rescale_fld (p_amp P) s (fun v => v / s) = Ok fa -> rescale_fld (p_opd P) s (fun v => v) = Ok fo ->
+     rescale_msk0 (p_mask P) s = Ok m0 -> nonempty_msk m0 = false -> plane_rescale P s = Err IndexError).
+Proof. split.
+  - intros P' H. pose proof (plane_rescale_nonempty _ _ _ H) as Hne.
+    pose proof (mask_nearest_neighbour _ _ _ H) as [Hmono Hcube].
+    apply plane_rescale_inv in H as (_ & _ & Hm & _). split.
+    + intros a' E. rewrite E in Hne. cbn in Hne. apply has_one_spec in Hne as (i & j & Hi & Hj & H1).
+      exists i, j. repeat split; try lia.
+      destruct (p_mask P) as [v|a|l] eqn:Em; cbn in Hm; try discriminate.
+      * destruct (Hmono a eq_refl) as (a2 & E2 & Hs). rewrite E in E2. injection E2 as <-.
+        rewrite Hs in H1 |- *. destruct (_ && _ && _); [reflexivity|discriminate].
+      * apply rbind_ok in Hm as (r & _ & Hm). rewrite E in Hm. discriminate.
+    + intros l' E. rewrite E in Hne. cbn in Hne.
+      destruct (p_mask P) as [v|a|l] eqn:Em; cbn in Hm; try discriminate.
+      * apply rbind_ok in Hm as (r & _ & Hm). rewrite E in Hm. discriminate.
+      * destruct (Hcube l eq_refl) as (l2 & E2 & _ & HF). rewrite E in E2. injection E2 as <-.
+        rewrite forallb_forall in Hne. apply Forall_forall. intros a' Hin.
+        specialize (Hne a' Hin). apply has_one_spec in Hne as (i & j & Hi & Hj & H1).
+        assert (Hs : forall i j, exists b : bool, oget a' i j = Known (if b then 1 else Q2Qc 0)).
+        { clear - HF Hin. induction HF as [|a b l l' Hab HF IH]; [contradiction|].
+          destruct Hin as [<-|Hin]; [|auto]. intros i j. eexists. apply Hab. }
+        exists i, j. repeat split; try lia.
+        destruct (Hs i j) as (b & Hb). rewrite Hb in H1 |- *. destruct b; [reflexivity|discriminate].
+  - intros fa fo m0 Ha Ho Hm Hne. unfold plane_rescale, rescale_msk. rewrite Ha, Ho, Hm. cbn. rewrite Hne. reflexivity.
+Qed.
 
 Lemma ceil_spec n s :
   zq n * s <= zq (rescale_shape n s) /\ zq (rescale_shape n s) < zq n * s + 1 /\
